@@ -172,9 +172,11 @@ for _name in dir(symtorch):
 
 
 class World:
-    def __init__(self, stubs=None, module_prefixes=("seqm",), extra_globals=None, silence_print=True):
-        """stubs: {"pkg.module:Qual.name": replacement}; extra_globals: {"pkg.module": {name: value}}"""
+    def __init__(self, stubs=None, module_prefixes=("seqm",), extra_globals=None, silence_print=True, constants=None):
+        """stubs: {"pkg.module:Qual.name": replacement}; extra_globals: {"pkg.module": {name: value}};
+        constants: {name: Sym} -- module-level float constants of that name become named symbols (float-constant rule ii)"""
         self.stubs = dict(stubs or {})
+        self.constants = dict(constants or {})
         self.prefixes = module_prefixes
         self.extra = extra_globals or {}
         self.silence_print = silence_print
@@ -205,6 +207,9 @@ class World:
                 elif id(val) in _TORCH_FN_MAP and callable(val) and getattr(val, "__module__", "") is not None and not isinstance(val, type):
                     if getattr(_rt, getattr(val, "__name__", ""), None) is val:
                         self._set(d, name, _TORCH_FN_MAP[id(val)], True)
+            for name, val in self.constants.items():
+                if isinstance(d.get(name), builtins.float):
+                    self._set(d, name, val, True)
             for name, val in _BUILTIN_SHADOWS.items():
                 if name == "print" and not self.silence_print:
                     continue
